@@ -142,5 +142,33 @@ u = unit("parse.flush.wf", "janet_parser_flush leaves a well-formed parser: empt
 if not os.environ.get("C11_ENABLE_ALL"):
     u["disabled_reason"] = FLUSH_DEFECT
 
+
+CONS_STUBS = ["realloc:realloc_stub", "janet_tuple_begin:tuple_begin_stub", "janet_tuple_end:tuple_end_stub", "janet_tuple_n:tuple_n_stub", "janet_array:array_stub",
+              "janet_buffer:buffer_stub", "janet_string:string_stub", "janet_symbol:symbol_stub", "janet_buffer_push_bytes:push_bytes_stub",
+              "janet_scan_numeric:scan_numeric_stub", "janet_scan_number:scan_number_stub"]
+CONS_MUT = {
+ "comment": [dict(name="comment-pops-twice", file="parse.c", find="    if (c == '\\n') {\n        p->statecount--;", replace="    if (c == '\\n') {\n        p->statecount -= 2;", expect="C11")],
+ "escape1": [dict(name="escape-u-counts-8", file="parse.c", find="state->counter = c == 'u' ? 4 : 6;", replace="state->counter = c == 'u' ? 4 : 8;", expect="C11")],
+ "escapeh": [dict(name="hex-digit-unchecked", file="parse.c", find='    if (digit < 0) {\n        p->error = "invalid hex digit in hex escape";\n        return 1;\n    }\n', replace="", expect="C11")],
+ "escapeu": [dict(name="codepoint-unchecked", file="parse.c", find="        if (state->argn > 0x10FFFF) {", replace="        if (0) {", expect="C11|overflow|wf")],
+ "stringchar": [dict(name="stringend-keeps-bufcount", file="parse.c", find="    p->bufcount = 0;\n    popstate(p, ret);\n    return 1;\n}\n\nstatic int stringchar", replace="    popstate(p, ret);\n    return 1;\n}\n\nstatic int stringchar", expect="C11")],
+ "longstring": [dict(name="end-candidate-off-by-one", file="parse.c", find="        if (c == '`' && state->counter < state->argn) {", replace="        if (c == '`' && state->counter <= state->argn) {", expect="C11")],
+ "atsign": [dict(name="atsign-no-pop", file="parse.c", find="    (void) state;\n    p->statecount--;\n    switch (c) {", replace="    (void) state;\n    switch (c) {", expect="C11")],
+ "tokenchar": [dict(name="token-keeps-buffer", file="parse.c", find="    p->bufcount = 0;\n    popstate(p, ret);\n    return 0;", replace="    popstate(p, ret);\n    return 0;", expect="C11")],
+ "root": [dict(name="close-at-root-unchecked", file="parse.c", find="            if (p->statecount == 1) {\n                delim_error(p, 0, c,", replace="            if (p->statecount == 0) {\n                delim_error(p, 0, c,", expect="C11|pointer|bounds"),
+          dict(name="close-tuple-leaves-arg", file="parse.c", find="    for (int32_t i = state->argn - 1; i >= 0; i--)\n        ret[i] = p->args[--p->argcount];", replace="    for (int32_t i = state->argn - 1; i > 0; i--)\n        ret[i] = p->args[--p->argcount];", expect="C11")],
+}
+for cname in CONSUMERS:
+    unit("parse.consumer." + cname, "the Consumer `%s` preserves wf_parser (stack counts <= capacities, statecount >= 1, root container at index 0, only root-dispatched states below "
+         "the top, sum of container argn == argcount, local counter ranges), is memory safe, and writes none of line/column/lookback/flag - for every byte and every well-formed state" % cname,
+         "h_consumer_" + cname, ["parse_consumers.c"], mode="plain", cls="bounded",
+         bound="nesting <= 3 (at most 4 parser states), token buffer capacity <= 5, args capacity <= 4, backtick runs <= 3; all loops fully unwound (unwinding assertions on)",
+         nanbox=False, link=["wrap.c"], replace_calls=CONS_STUBS, unwind=8, timeout=300,
+         functions=[cname, "pushstate", "popstate", "push_buf", "push_arg", "_pushstate"],
+         assumes=["allocation entry points (janet_tuple_begin/_n, janet_array, janet_buffer) return fresh valid objects of the requested size; janet_string/janet_symbol/number scanners "
+                  "only read the range they are given (asserted at the call); realloc is modelled as a typed copy into a fresh object and does not fail",
+                  "wf_parser of the input state as listed in harness/parse_consumers.c (W1-W4)"],
+         mutants=CONS_MUT[cname])
+
 json.dump({"units": units}, open(os.path.join(V, "units", "C11.json"), "w"), indent=1)
 print("wrote %d units" % len(units))
